@@ -254,6 +254,7 @@ func TestRecycleKeepsRecoveredNode(t *testing.T) {
 		for _, reloaded := range []string{"no", "changed", "cleared-and-loaded-again", "no, active recovery whose probes fail"} { // every variant in every case
 			recycleOnce(t, c, nn, recovers, reloaded)
 		}
+		capAfterRecycle(t, c)
 		c.NonTrivial()
 	})
 }
@@ -416,4 +417,49 @@ func TestWholeListReload(t *testing.T) {
 			c.Class("whole-list-reload-after-nodes-became-known")
 		}
 	})
+}
+
+
+// capAfterRecycle: the cap follows the number of known nodes down when a node is recycled. Three of four nodes are ejected
+// (cap floor(0.5 x 4) = 2 of them reported); two of the three complete a request successfully while their breakers stay
+// open (retry timeout far away), the third is recycled after the recycle interval: three nodes are known, two of them
+// still reject, and at most floor(0.5 x 3) = 1 may be reported.
+func capAfterRecycle(t *rapid.T, c *hx.Case) {
+	res := fmt.Sprintf("cap-%d", atomic.AddInt64(&caseNo, 1))
+	hx.Reset(hx.Epoch)
+	rule := &outlier.Rule{Rule: &cb.Rule{Id: res, Resource: res, Strategy: cb.ErrorCount, RetryTimeoutMs: 3600000, MinRequestAmount: 1, StatIntervalMs: 1000, Threshold: 1},
+		EnableActiveRecovery: false, MaxEjectionPercent: 0.5, RecoveryIntervalMs: 4000, MaxRecoveryAttempts: 1, RecycleIntervalS: 1}
+	if _, err := outlier.LoadRuleOfResource(res, rule); err != nil {
+		t.Fatal(err)
+	}
+	call := func(addr string, fail bool) []string {
+		e, _ := sentinel.Entry(res, sentinel.WithSlotChain(chain))
+		f := append([]string(nil), e.Context().FilterNodes()...)
+		sentinel.TraceCallee(e, addr)
+		if fail {
+			e.Exit(base.WithError(errors.New("x")))
+		} else {
+			e.Exit()
+		}
+		return f
+	}
+	call("healthy", false)
+	for _, a := range []string{"a", "b", "c"} {
+		call(a, true) // opens
+	}
+	hx.C.AddMs(5)
+	if f := call("healthy", false); len(f) > 2 {
+		t.Fatalf("4 known nodes, 3 rejecting: %d reported, allowed floor(0.5 x 4) = 2", len(f))
+	}
+	time.Sleep(100 * time.Millisecond) // the reported nodes reach the recycler
+	call("b", false)
+	call("c", false) // b and c complete a request successfully (their breakers stay open): they are not recycled
+	time.Sleep(1500 * time.Millisecond)
+	known := outlier.VerifNodeAddresses(res)
+	f := call("healthy", false)
+	bound := floorNP(len(known), 0.5)
+	c.Op("cap after recycle: known nodes %v, reported %v, allowed %d", known, f, bound)
+	if len(f) > bound {
+		t.Fatalf("after the recycle interval %d nodes are known (%v); %d nodes are reported for filtering (%v), allowed floor(0.5 x %d) = %d", len(known), known, len(f), f, len(known), bound)
+	}
 }
